@@ -171,6 +171,7 @@ type e2e struct {
 	mowned map[collID]map[string]map[string]bool // engine keys owned by one member of a hash/set/zset
 	score  map[collID]map[string]float64         // zset member -> score
 	alive  map[collID][][]byte                   // current members
+	lentRaw, lentCopy [][]byte
 	order  []collID
 }
 
@@ -217,7 +218,8 @@ func (e *e2e) populate(c collID, members [][]byte) error {
 	case "hash":
 		for _, m := range members {
 			b0 := e.dump()
-			if _, err = e.db.HSet(e.tick(), false, raw, m, append([]byte("v"), m...)); err != nil {
+			pk, pa := e.asParsed("hset", raw, m, append([]byte("v"), m...))
+			if _, err = e.db.HSet(e.tick(), false, pk, pa[0], pa[1]); err != nil {
 				break
 			}
 			e.noteMember(c, m, b0)
@@ -225,7 +227,8 @@ func (e *e2e) populate(c collID, members [][]byte) error {
 	case "set":
 		for _, m := range members {
 			b0 := e.dump()
-			if _, err = e.db.SAdd(e.tick(), raw, m); err != nil {
+			pk, pa := e.asParsed("sadd", raw, m, []byte("x"))
+			if _, err = e.db.SAdd(e.tick(), pk, pa[0]); err != nil {
 				break
 			}
 			e.noteMember(c, m, b0)
@@ -241,7 +244,8 @@ func (e *e2e) populate(c collID, members [][]byte) error {
 				sc = -1
 			}
 			b0 := e.dump()
-			if _, err = e.db.ZAdd(e.tick(), raw, common.ScorePair{Score: sc, Member: m}); err != nil {
+			pk, pa := e.asParsed("zadd", raw, []byte("1"), m, []byte("2"), []byte("y"))
+			if _, err = e.db.ZAdd(e.tick(), pk, common.ScorePair{Score: sc, Member: pa[1]}); err != nil {
 				break
 			}
 			e.score[c][string(m)] = sc
@@ -273,6 +277,31 @@ func (e *e2e) populate(c collID, members [][]byte) error {
 	}
 	e.alive[c] = members
 	return nil
+}
+
+// asParsed lays the arguments of one command out the way the server sees them: ONE raw RESP buffer
+// (common.BuildCommand, the same layout redcon.Parse yields), every argument a sub-slice of it, the key cut
+// out of "ns:table:key". The returned check reports a command buffer that was modified while the store ran.
+func (e *e2e) asParsed(name string, key []byte, rest ...[]byte) (k []byte, args [][]byte) {
+	all := make([][]byte, 0, 2+len(rest))
+	all = append(all, []byte(name), append([]byte("ns:"), key...))
+	all = append(all, rest...)
+	cmd := common.BuildCommand(all)
+	e.lentRaw = append(e.lentRaw, cmd.Raw)
+	e.lentCopy = append(e.lentCopy, append([]byte{}, cmd.Raw...))
+	return cmd.Args[1][3:], cmd.Args[2:]
+}
+
+// lentCheck: every command buffer handed out since the last call must be byte-identical to what it was
+func (e *e2e) lentCheck() []string {
+	var out []string
+	for i, raw := range e.lentRaw {
+		if string(raw) != string(e.lentCopy[i]) {
+			out = append(out, fmt.Sprintf("the store modified the command buffer it was lent: %q became %q", e.lentCopy[i], raw))
+		}
+	}
+	e.lentRaw, e.lentCopy = nil, nil
+	return out
 }
 
 // noteMember: the element keys that appeared when one member was added belong to that member
@@ -487,6 +516,9 @@ func scenario(seed int64, policy string, idx int, emit func(e2eRec)) {
 				}
 			}
 		}
+	}
+	if l := e.lentCheck(); len(l) > 0 {
+		emit(e2eRec{ID: fmt.Sprintf("e%s%d.pop", policy[:1], idx), Seed: seed, Policy: policy, Op: "populate", Logical: l})
 	}
 	e.multiReads(fmt.Sprintf("e%s%d.r0", policy[:1], idx), seed, emit)
 	// operations
@@ -715,6 +747,7 @@ func scenario(seed int64, policy string, idx int, emit func(e2eRec)) {
 			delete(e.mowned, t)
 			delete(e.score, t)
 		}
+		rec.Logical = append(rec.Logical, e.lentCheck()...)
 		fresh := [][]byte{[]byte("fresh")}
 		t0 := targets[0]
 		if err := e.populate(t0, fresh); err != nil {
@@ -794,16 +827,17 @@ func (e *e2e) partialRemove(c collID, rec *e2eRec, before map[string]string, log
 			args = append(args, members[0])
 		}
 		args = append(args, []byte("no-such-member"))
+		pk, pa := e.asParsed("rem", raw, args...)
 		switch c.Typ {
 		case "hash":
 			rec.Op = "HDel(part)"
-			_, opErr = e.db.HDel(e.tick(), raw, args...)
+			_, opErr = e.db.HDel(e.tick(), pk, pa...)
 		case "set":
 			rec.Op = "SRem(part)"
-			_, opErr = e.db.SRem(e.tick(), raw, args...)
+			_, opErr = e.db.SRem(e.tick(), pk, pa...)
 		case "zset":
 			rec.Op = "ZRem(part)"
-			_, opErr = e.db.ZRem(e.tick(), raw, args...)
+			_, opErr = e.db.ZRem(e.tick(), pk, pa...)
 		}
 	case 1: // by score interval
 		bounds := [][2]float64{{-1, -1}, {-3, 0}, {0, 1}, {0.5, math.Inf(1)}, {math.Inf(-1), -1}, {-1e-300, 0}, {1, 3e10}}
@@ -892,6 +926,7 @@ func (e *e2e) partialRemove(c collID, rec *e2eRec, before map[string]string, log
 			rec.Logical = append(rec.Logical, fmt.Sprintf("other collection %s changed from %s to %s by %s on %s", o, logBefore[o], got, rec.Op, c))
 		}
 	}
+	rec.Logical = append(rec.Logical, e.lentCheck()...)
 	for m := range sel {
 		for k := range e.mowned[c][m] {
 			delete(e.owned[c], k)
@@ -912,11 +947,13 @@ func (e *e2e) rejectedWrite(c collID, op int, rec *e2eRec, before map[string]str
 	big := make([]byte, rr.MaxSubKeyLen+1)
 	good1, good2 := []byte("leak1"), []byte{}
 	var err error
+	raw, pa := e.asParsed("multi", raw, good1, []byte("x"), good2, []byte("y"), big, []byte("z"))
+	good1, good2, big = pa[0], pa[2], pa[4]
 	switch c.Typ {
 	case "hash":
 		rec.Op = "rejected HMset + KVSet elsewhere"
-		err = e.db.HMset(e.tick(), raw, common.KVRecord{Key: good1, Value: []byte("x")}, common.KVRecord{Key: good2, Value: []byte("y")},
-			common.KVRecord{Key: big, Value: []byte("z")})
+		err = e.db.HMset(e.tick(), raw, common.KVRecord{Key: good1, Value: pa[1]}, common.KVRecord{Key: good2, Value: pa[3]},
+			common.KVRecord{Key: big, Value: pa[5]})
 	case "set":
 		rec.Op = "rejected SAdd + KVSet elsewhere"
 		_, err = e.db.SAdd(e.tick(), raw, good1, good2, big)
@@ -925,6 +962,7 @@ func (e *e2e) rejectedWrite(c collID, op int, rec *e2eRec, before map[string]str
 		_, err = e.db.ZAdd(e.tick(), raw, common.ScorePair{Score: 7, Member: good1}, common.ScorePair{Score: 8, Member: good2},
 			common.ScorePair{Score: 9, Member: big})
 	}
+	rec.Logical = append(rec.Logical, e.lentCheck()...)
 	rec.Targets = []string{c.String()}
 	if err == nil {
 		rec.Err = "the over-long member was not rejected"
